@@ -34,7 +34,7 @@ CLAIMS = {
               'history invariant "every successful Ack event is preceded by a state with no file written-and-not-synced" (acks_sound), "every file holding unsynced data is still tracked" (covered), '
               'preserved by sync_all_files (also at its error exit: defect D7, fixed), handle_non_flush_request and every iteration of run_inner for an ARBITRARY next request and batch split; '
               'sender side: send_flush hands over exactly the bytes buffered since the last hand-over with sync=true and the callback, rotation queues the old tail as a synced Write before AppendFile. '
-              'At-most-once per callback is Rust move semantics (Callback::send consumes self).'),
+              'every batch produces exactly one Ack event per request that carries a callback, in request order (ack_ids(trace suffix) == cb_ids(batch)); at-most-once per callback is also Rust move semantics (Callback::send consumes self).'),
         note=TRUST + ' Assumed: write_all/sync_data semantics (a successful fdatasync makes all earlier writes to that file durable), FIFO channel, message invariant "every Write has sync == true" (proved on the sender in U5, assumed at recv), rule E7 desugaring of try_iter().take(n) and iter().any(). Liveness (every sent request is eventually processed) is not decided.',
         technique='Verus history invariant over a ghost effect trace, on extracted code',
         design='5 C04',
@@ -52,7 +52,7 @@ CLAIMS = {
         text=('Unbounded deductive proof (Verus): RaftLog::append_and_apply has the postcondition "record not accepted by the reference => Err and *final(self) == *old(self)" '
               '(whole struct: state, index, cache, journal buffer, offsets, closed chunks, sent messages, removal list), inherited by save_vote, commit, truncate '
               '(LogIndexNotFound precedes any mutation); accepted records are Ok at the state machine.  On the pinned tree this failed (defects D1-D3), repaired by a fix: commit.'),
-        note=TRUST + ' Batch append applies the valid prefix before failing (finding D16, generic IntoIterator loop not under contract). "after flush and restart" relies on C02.',
+        note=TRUST + ' KNOWN FINDING D16: the batch append applies the valid prefix before failing (twin obligation on RaftLog::append, desugared by rule E7). "after flush and restart" relies on C02.',
         technique='Verus frame postcondition (Err => nothing changed) on extracted code',
         design='5 C06',
     ),
@@ -60,7 +60,7 @@ CLAIMS = {
         text=('Unbounded deductive proof (Verus) of the cache-pinning half of the property: no PayloadCache method (insert, try_evict, evict_first, drain_evictable, purge_upto) ever drops an entry above the evictable boundary, '
               'for an arbitrary boundary at entry (rely condition standing in for the worker thread); the new entry of an append stays resident if it is above the boundary; carried through RaftLogStateMachine::apply and RaftLog::append_and_apply; '
               'worker side: the boundary is raised (SetEvictable event) only in a state where every file other than the newest tracked one is clean (evictable_sound, history invariant). '
-              'Not decided in this revision: the disk-read fallback of read() (load_log_payload / finding D8) and the concurrent-readers clause.'),
+              'read__entry / load_log_payload: an evicted entry is read from the closed chunk its index entry names, an unknown chunk is reported as NotFound (never a panic, given that index entries point at Append records on disk). KNOWN FINDING D8: an accepted TruncateAfter can leave the evictable boundary above `last` (the clause is proved for every other record kind). Not decided: the chain "every non-resident live entry lies in a closed chunk" and the concurrent-readers clause.'),
         note=TRUST + ' Lock sequentialised (E6). The concurrent-readers clause is Rust Sync typing + pread and has no contract.',
         technique='Verus pinning postconditions + history invariant, on extracted code',
         design='5 C07',
@@ -96,7 +96,7 @@ CLAIMS = {
         text=('Unbounded deductive proof (Verus) of the journal arithmetic: append_record buffers exactly enc(rec) and pushes end+|enc(rec)|; the segment returned by a write is '
               '(old end, |enc(rec)|) also when the write triggers a rotation (defect D14, fixed); a chunk is closed iff records >= max_records or size >= max_size right after the write; '
               'the closed chunk is keyed by its start, the new chunk starts at the old end, its head is State(state at rotation), its file is created under chunk_path(offset) and the head is written; '
-              'the old tail is queued as a synced Write before AppendFile; Inv_WAL (chunks abut) is preserved; on_disk_size == end - oldest start.'),
+              'the old tail is queued as a synced Write before AppendFile; Inv_WAL (chunks abut) is preserved; on_disk_size == end - oldest start; the batch append returns the segment of its last record (also across a rotation).'),
         note=TRUST + ' File effects are uninterpreted events of assumed std contracts. The file-name codec (chunk_file_name/parse_chunk_file_name, format!/str) is not under contract. Worker-side placement of writes is part of C04 (unit U7).',
         technique='Verus function contracts over offset/segment arithmetic and sent-message ghost history, on extracted code',
         design='5 C11',
